@@ -794,6 +794,11 @@ func (a *sideEffectActor) resolveActors(c context.Context, t Transport, r []*url
 		return
 	}
 	for _, u := range r {
+		if IsPublic(u.String()) {
+			// The Public collection has no inbox and is never fetched,
+			// even when a remote collection lists it.
+			continue
+		}
 		var act vocab.Type
 		var more []*url.URL
 		// TODO: Determine if more logic is needed here for inaccessible
